@@ -85,3 +85,11 @@ _BIN = ["add", "subtract", "multiply", "divide", "true_divide", "maximum", "mini
 RC.append(("binary element-wise functions: the gradient w.r.t. a default-precision (float64 / Python float) argument takes the dtype of the OTHER operand when that "
            "one has another precision (float32 partner of a scalar -> float32, longdouble partner -> float128): unbroadcast restores shape and realness but not the dtype",
            [("C05", p_, "rev", "wrong-structure", "kinds:~.*(ld|f32).*") for p_ in _BIN]))
+
+RC.append(("np.sinc at 0 (a smooth point, derivative 0): the rule divides by pi*x**2 and returns NaN in both modes",
+           [("C01", "sinc", "rev", "not-finite", "point:kink"), ("C02", "sinc", "fwd", "not-finite", "point:kink")]))
+RC.append(("np.prod of an array containing a zero (a smooth point: the derivative is the product of the other entries): the rule computes ans / x and "
+           "returns NaN at the zero entries (reverse) or everywhere (forward)",
+           [("C01", "prod", "rev", "not-finite", "point:kink"), ("C02", "prod", "fwd", "not-finite", "point:kink")]))
+RC.append(("np.linalg.det of a singular matrix (det is a polynomial, its gradient is the cofactor matrix): the rule computes ans * inv(x).T and raises LinAlgError",
+           [("C01", "det", "rev", "raised-at-handled-kink", "point:kink"), ("C02", "det", "fwd", "raised-at-handled-kink", "point:kink")]))
